@@ -252,6 +252,9 @@ pub fn build(id: &str, tier: &str, seed: u64, threads: usize) -> Option<Plan> {
                 }
                 fam_single(b, false, 1, &mut cases);
                 fam_strays(b, &mut cases);
+                if b.spec.nblocks() <= 4 || !q {
+                    fam_blackhole(b, &mut cases);
+                }
                 if !q {
                     fam_random(b, &mut rng, 300, 6, &mut cases);
                     if b.spec.w <= 3 && b.spec.b == 8 && b.spec.nblocks() <= 2 * b.spec.w as u64 + 1 {
@@ -289,6 +292,7 @@ pub fn build(id: &str, tier: &str, seed: u64, threads: usize) -> Option<Plan> {
                     fam_stale_timing(b, if q { 2 } else { 4 }, &mut cases);
                     if b.spec.nblocks() <= 2 * b.spec.w as u64 + 1 || !q {
                         fam_stale_pairs(b, &mut cases);
+                        fam_stale_volley(b, &mut cases);
                     }
                     fam_ack_patterns(b, &mut cases);
                     if b.spec.w <= 8 || b.spec.nblocks() <= 6 {
@@ -327,6 +331,9 @@ pub fn build(id: &str, tier: &str, seed: u64, threads: usize) -> Option<Plan> {
                     fam_silence_error(b, &mut v);
                     if b.spec.b == 8 {
                         fam_single(b, false, 0, &mut v);
+                        if b.spec.nblocks() <= 5 || !q {
+                            fam_blackhole(b, &mut v);
+                        }
                     }
                     for mut c in v {
                         c.clean = clean;
